@@ -188,6 +188,14 @@ fn item_battery<T: Item>(out: &mut dyn Write, tname: &str, v: &[u64]) -> std::io
         if !T::ZST {
         chk(out, "C07", &name, "filter collect_x", || { let w = items.clone().into_par().num_threads(nt).chunk_size(cs).filter(keep).collect_x(); let mut o: Vec<u64> = (0..orx_split_vec::PinnedVec::len(&w)).map(|i| orx_split_vec::PinnedVec::get(&w, i).expect("in bounds").val()).collect(); o.sort_unstable(); o }, { let mut o = vals(&items.iter().cloned().filter(keep).collect::<Vec<_>>()); o.sort_unstable(); o })?;
         }
+        // zero-sized items included: only the length of the unordered result is read back
+        chk(out, "C07", &name, "collect_x lengths: map, filter, flat_map(twice), filter_map(Some)", || {
+            let a = items.clone().into_par().num_threads(nt).chunk_size(cs).map(|x| x).collect_x();
+            let b = items.clone().into_par().num_threads(nt).chunk_size(cs).filter(keep).collect_x();
+            let c = items.clone().into_par().num_threads(nt).chunk_size(cs).flat_map(|x| vec![x.clone(), x]).collect_x();
+            let d = items.clone().into_par().num_threads(nt).chunk_size(cs).filter_map(|x| Some(x)).collect_x();
+            (orx_split_vec::PinnedVec::len(&a), orx_split_vec::PinnedVec::len(&b), orx_split_vec::PinnedVec::len(&c), orx_split_vec::PinnedVec::len(&d))
+        }, (items.len(), items.iter().filter(|x| keep(x)).count(), 2 * items.len(), items.len()))?;
         chk(out, "C04", &name, "filter count", || items.clone().into_par().num_threads(nt).chunk_size(cs).filter(keep).count(), items.iter().filter(|x| keep(x)).count())?;
         chk(out, "C03", &name, "reduce max-by-val", || items.clone().into_par().num_threads(nt).chunk_size(cs).reduce(|a, b| if a.val() >= b.val() { a } else { b }).map(|x| x.val()), items.iter().map(|x| x.val()).max())?;
         chk(out, "C03", &name, "min_by_key", || items.clone().into_par().num_threads(nt).chunk_size(cs).min_by_key(|x| x.val()).map(|x| x.val()), items.iter().map(|x| x.val()).min())?;
@@ -595,6 +603,37 @@ pub fn run(out: &mut dyn Write, seed: u64, only: &str) -> std::io::Result<()> {
                 v.iter().copied().filter(|t| t % 9 == 8).find(|t| *t > 50).unwrap_or(0) as usize,
                 v.iter().filter(|x| **x % 2 == 0).count(),
                 v.iter().filter(|x| **x % 3 == 1).count(),
+            ], 0))?;
+        }
+        // the same with chunks of 513 … 2048 results and a short pause at chunk starts (so that
+        // several workers each hold long runs when the ordered merge begins and the last run of the
+        // merge comes from one worker): produced − dropped must be 0 after the results are dropped
+        let big: Vec<u64> = (0..6000u64).map(|i| i * 31 % 1009).collect();
+        for (nt, cs) in [(2usize, 513usize), (2, 700), (3, 1000), (4, 600), (4, 2048)] {
+            let name = format!("droppable outputs, long runs per worker nt={} cs={}", nt, cs);
+            let pause = |i: usize| { if i % cs == 0 { std::thread::sleep(std::time::Duration::from_micros(300)); } };
+            chk(out, "C13", &name, "map.filter collect_vec / collect / collect_into(Vec, FixedVec); filter_map; flat_map — lengths and live count", || {
+                LIVE2.store(0, Ordering::SeqCst);
+                let mut lens = vec![];
+                {
+                    let a = (0..6000usize).into_par().num_threads(nt).chunk_size(cs).map(|i| { pause(i); Tr::new(i as u64) }).filter(|t| t.0 % 11 != 0).collect_vec();
+                    let b = big.par().num_threads(nt).chunk_size(cs).map(|x| Tr::new(*x)).filter(|t| t.0 % 13 != 0).collect();
+                    let c = (0..6000usize).into_par().num_threads(nt).chunk_size(cs).map(|i| { pause(i); Tr::new(big[i]) }).filter(|t| t.0 % 5 != 0).collect_into(vec![Tr::new(1)]);
+                    let mut fx = orx_fixed_vec::FixedVec::new(6100);
+                    orx_split_vec::PinnedVec::push(&mut fx, Tr::new(2));
+                    let d = (0..6000usize).into_par().num_threads(nt).chunk_size(cs).map(|i| { pause(i); Tr::new(big[i]) }).filter(|t| t.0 % 7 != 0).collect_into(fx);
+                    let e = (0..6000usize).into_par().num_threads(nt).chunk_size(cs).filter_map(|i| { pause(i); if big[i] % 4 == 0 { None } else { Some(Tr::new(big[i])) } }).collect_vec();
+                    let f = (0..3000usize).into_par().num_threads(nt).chunk_size(cs).flat_map(|i| { pause(i); vec![Tr::new(big[i]), Tr::new(big[i] + 1)] }).filter(|t| t.0 % 3 != 0).collect_vec();
+                    lens.extend([a.len(), orx_split_vec::PinnedVec::len(&b), c.len(), orx_split_vec::PinnedVec::len(&d), e.len(), f.len()]);
+                }
+                (lens, LIVE2.load(Ordering::SeqCst))
+            }, (vec![
+                (0..6000u64).filter(|i| i % 11 != 0).count(),
+                big.iter().filter(|x| **x % 13 != 0).count(),
+                1 + big.iter().filter(|x| **x % 5 != 0).count(),
+                1 + big.iter().filter(|x| **x % 7 != 0).count(),
+                big.iter().filter(|x| **x % 4 != 0).count(),
+                big[..3000].iter().flat_map(|x| [*x, *x + 1]).filter(|t| t % 3 != 0).count(),
             ], 0))?;
         }
     }
